@@ -114,7 +114,8 @@ def main():
 
 
 if __name__ == "__main__":
-    from mc.core import _maybe_start_coverage
+    from mc.core import _maybe_start_coverage, _maybe_start_param_audit
 
     _maybe_start_coverage()
+    _maybe_start_param_audit()
     main()
